@@ -570,7 +570,9 @@ class Tr:
             if s.it.k == 'var' and self.typeof(s.it) not in ('LZ',):
                 pass
             x = self.pat(s.pat)
-            if s.pat.k == 'pvar': self.ty[s.pat.name] = self.cfg.get('loop_var_type', 'Z')
+            if s.pat.k == 'pvar':
+                self.ty[s.pat.name] = self.cfg.get('loop_var_type', 'Z')
+                if self.cfg.get('loop_var_type') == 'B': x = '(%s : bool)' % x
             st = vs[0] if len(vs) == 1 else "'(%s)" % ', '.join(vs)
             stv = vs[0] if len(vs) == 1 else '(%s)' % ', '.join(vs)
             body = self.stmts(s.body, stv)
